@@ -20,6 +20,9 @@ use nervusdb_api::{
     RelTypeId,
 };
 use std::collections::{BTreeMap, HashSet};
+#[cfg(nervusdb_verif)]
+use nervusdb_api::verif::sync::{Arc, Mutex, RwLock};
+#[cfg(not(nervusdb_verif))]
 use std::sync::{Arc, Mutex, RwLock};
 
 #[derive(Debug)]
